@@ -78,27 +78,18 @@ Definition fix_pragma (m : hmap) : hmap :=
   end.
 
 (* ---- readTransfer (request side) ---- *)
-(* fixTransferEncoding: Some chunked? / None = 400.  The loop over the comma-separated codings of the FIRST value. *)
-Fixpoint te_loop (encs : list bytes) (acc : nat) : option nat :=
-  match encs with
-  | [] => Some acc
-  | e :: r => let e' := to_lower (trim_sp e) in
-              if bytes_eqb e' s_identity then Some acc
-              else if bytes_eqb e' s_chunked then te_loop r (S acc) else None
-  end.
+(* fixTransferEncoding (after /repo a604fb2): the field is removed; it must be a single line whose trimmed, ASCII
+   lower-cased value is exactly "chunked" (then Content-Length is dropped); anything else is a 400 *)
 Definition fix_te (m : hmap) : option (hmap * bool) :=
   match hfind s_transfer_encoding m with
   | None => Some (m, false)
-  | Some vs =>
-    let m1 := hdel s_transfer_encoding m in
-    match te_loop (split_byte 44 (match vs with v :: _ => v | [] => [] end)) O with
-    | None => None
-    | Some O => Some (m1, false)
-    | Some (S O) => Some (hdel s_content_length m1, true)
-    | Some _ => None
-    end
+  | Some [v] =>
+    if bytes_eqb (to_lower (trim_sp v)) s_chunked
+    then Some (hdel s_content_length (hdel s_transfer_encoding m), true) else None
+  | Some _ => None
   end.
-(* fixLength for a request: content length (0 when absent/empty), None = 400 *)
+(* fixLength for a request (after /repo 17390c5, e9e83bf): repeated Content-Length lines must agree (they are
+   collapsed), the value must be an unsigned decimal; an empty value is a 400; no field = length 0 *)
 Definition fix_length (m : hmap) (chunked : bool) : option (hmap * Z) :=
   if chunked then Some (m, -1)
   else
@@ -111,10 +102,13 @@ Definition fix_length (m : hmap) (chunked : bool) : option (hmap * Z) :=
     match m1 with
     | None => None
     | Some m1 =>
-      let cl := trim_sp (hfirst s_content_length m1) in
-      match cl with
-      | [] => Some (hdel s_content_length m1, 0)
-      | _ => match parse_dec cl with Some n => Some (m1, n) | None => None end
+      match hfind s_content_length m1 with
+      | None => Some (m1, 0)
+      | Some _ =>
+        match trim_sp (hfirst s_content_length m1) with
+        | [] => None
+        | cl => match parse_dec cl with Some n => Some (m1, n) | None => None end
+        end
       end
     end.
 (* fixTrailer: the Trailer field is removed (the trailer set it builds is always empty); a declared trailer key that is
